@@ -69,19 +69,55 @@ ASSUMPTIONS = [
 BACKINGS = ["dense", "csr", "csc", "func"]
 KINDS1 = ["default", "Continuous1D", "Discrete", "Image2D-visual", "Mapped-flip", "Mapped-scale", "KL", "KL-trunc",
           "Step", "Step-full"]
+# option-representation facet of the 1-D kinds: "<kind>/<representation>" is the SAME geometry as <kind> with one
+# option written in another form the library accepts - StepExpansion(fun2par_projection=...) is documented as
+# 'mean' / 'max' / 'min' and read case-insensitively (lower / Capitalised / UPPER); on "Step-full" (one node per
+# step) the mean, the maximum and the minimum of a step are all that node's value, so all nine strings name the
+# identity there; on "Step" (several nodes per step) only the mean is linear.  Discrete(variables) takes the
+# number of variables or the list of their names.
+KINDS1_REP = (["Step/Mean", "Step/MEAN"]
+              + ["Step-full/%s" % p for p in ("Mean", "MEAN", "max", "Max", "MAX", "min", "Min", "MIN")]
+              + ["Discrete/names"])
 KINDS2 = ["default2D", "Image2D-C", "Image2D-F", "Continuous2D"]
+# Image2D(order=...): 'C' row-major, 'F' column-major; the string is handed to numpy, which reads it
+# case-insensitively - the lower-case spellings are accepted and name the same two layouts
+KINDS2_REP = ["Image2D-c", "Image2D-f"]
 KINDS_VEC = ["default", "Continuous1D"]      # the vector side of an image <-> vector model
+# kinds whose constructor takes integers (sizes, shape entries, n_steps, num_modes): the facet ints="np64" hands every
+# one of them over as numpy.int64 instead of a Python int.  (A bare integer standing for the default 1-D geometry
+# is documented to be of type int and stays one.)
+KINDS1_INT = ["Continuous1D", "Discrete", "Image2D-visual", "KL-trunc", "Step", "Step-full"]
+# canonical form of a kind (upper-case / lower-case documented spelling, integer count)
+_CANON_KIND = {"Image2D-c": "Image2D-C", "Image2D-f": "Image2D-F"}
+
+
+def _base(kind):
+    """Kind without its option-representation suffix / spelling (the canonical twin)."""
+    return _CANON_KIND.get(kind, kind.split("/")[0])
+
+
 # kinds whose par2fun/fun2par may be applied twice without changing the result (re-applying is a no-op)
 _REAPPLY_OK = {"default", "Continuous1D", "Discrete", "Image2D-visual", "Step-full", "default2D", "Image2D-C",
                "Image2D-F", "Continuous2D"}
-# documented storage order of the image kinds (row-major unless order="F" is asked for)
-_ORDER2 = {"default2D": "C", "Image2D-C": "C", "Image2D-F": "F", "Continuous2D": "C"}
+# documented storage order of the image kinds (row-major unless order="F" is asked for, in either case)
+_ORDER2 = {"default2D": "C", "Image2D-C": "C", "Image2D-F": "F", "Continuous2D": "C", "Image2D-c": "C",
+           "Image2D-f": "F"}
 # representation of the argument handed to forward / adjoint / T.forward / T.adjoint: the SAME parameter vector as
 #   ndarray        plain vector of parameters (the default route)
 #   CUQIarray-par  CUQIarray(is_par=True) carrying the geometry of the side it is given to
 #   CUQIarray-fun  CUQIarray(is_par=False) holding the function values par2fun(x), carrying that geometry
 #   ndarray-fun    plain array of function values par2fun(x), handed over with is_par=False
 REPS = ["ndarray", "CUQIarray-par", "CUQIarray-fun", "ndarray-fun"]
+# spellings of the option strings of the shipped test problems (PSF and BC names are documented capitalised -
+# 'Gauss', 'Mirror', 'Neumann' - or lower-case - 'zero', 'periodic' - and read case-insensitively)
+STYLES = ["lower", "Cap", "UPPER"]
+# legacy Deconvolution1D: documented names 'Gauss', 'sinc' or 'prolate' (an alias), 'vonMises'
+LEGACY_SPELLINGS = [("gauss", "Gauss"), ("gauss", "GAUSS"), ("sinc", "Sinc"), ("sinc", "SINC"), ("sinc", "prolate"),
+                    ("sinc", "Prolate"), ("sinc", "PROLATE"), ("vonmises", "vonMises"), ("vonmises", "VONMISES")]
+
+
+def _styled(name, style):
+    return {"lower": name.lower(), "Cap": name.capitalize(), "UPPER": name.upper()}[style]
 
 
 def gen2_shapes(thorough):
@@ -112,6 +148,21 @@ def cells(tier, seed):
             for dk in KINDS1:
                 for rk in KINDS1:
                     yield {"fam": "gen1", "backing": b, "m": m, "n": n, "dk": dk, "rk": rk, "cat": k}
+    # option-representation facet, 1-D kinds: a re-spelled / re-represented kind on the domain side, on the range side
+    # and on both; the other side runs over {default} (quick) / every canonical kind (thorough)
+    others = ["default"] if not thorough else KINDS1
+    for b in BACKINGS:
+        for (m, n) in (shapes1[:1] if not thorough else [(4, 5), (3, 3)]):
+            for sk in KINDS1_REP:
+                pairs = [(sk, sk)] + [(sk, o) for o in others] + [(o, sk) for o in others]
+                for (dk, rk) in pairs:
+                    yield {"fam": "gen1", "backing": b, "m": m, "n": n, "dk": dk, "rk": rk, "cat": k}
+    # integer-type facet, 1-D kinds: every integer constructor argument of both geometries as numpy.int64
+    for b in (("dense", "func") if not thorough else BACKINGS):
+        for (m, n) in (shapes1[:1] if not thorough else [(4, 5), (3, 3)]):
+            for dk in KINDS1_INT:
+                for rk in KINDS1_INT:
+                    yield {"fam": "gen1", "backing": b, "m": m, "n": n, "dk": dk, "rk": rk, "cat": k, "ints": "np64"}
     # function-backed models whose forward/adjoint return VIEWS of their input (no allocation): reversal, restriction,
     # strided sub-sampling, identity - the matrix assembly must not alias the probing vector
     for view in ("reverse", "restrict", "stride", "identity"):
@@ -123,13 +174,22 @@ def cells(tier, seed):
     # is answered with wrong numbers, not with an exception), "transpose" X -> X^T (a view of its input)
     # (a stored matrix whose shape is not (range_dim, domain_dim) - applied to the columns of an image by accident of
     #  numpy broadcasting - is not a matrix-backed linear model in the documented sense: no matrix backing here)
+    # image kinds: the canonical four plus every accepted spelling of Image2D's order (the full product on both sides);
+    # integer-type facet: the shape entries (and vector sizes) as numpy.int64 - canonical kinds in the quick tier,
+    # every kind in the thorough tier
+    kinds2 = KINDS2 + KINDS2_REP
     for op, shapes in gen2_shapes(thorough).items():
         for (r, c, r2, c2) in shapes:
             # a side with 0 columns is a plain vector of r values (1-D geometry kinds): image <-> vector models
-            for dk in (KINDS2 if c else KINDS_VEC):
-                for rk in (KINDS2 if c2 else KINDS_VEC):
-                    yield {"fam": "gen2", "backing": "func", "op": op, "r": r, "c": c, "r2": r2, "c2": c2, "dk": dk,
-                           "rk": rk, "cat": k}
+            for ints in ("py", "np64"):
+                k2 = kinds2 if (ints == "py" or thorough) else KINDS2
+                for dk in (k2 if c else KINDS_VEC):
+                    for rk in (k2 if c2 else KINDS_VEC):
+                        cell = {"fam": "gen2", "backing": "func", "op": op, "r": r, "c": c, "r2": r2, "c2": c2,
+                                "dk": dk, "rk": rk, "cat": k}
+                        if ints != "py":
+                            cell["ints"] = ints
+                        yield cell
     # shipped test problems: every representation on forward and adjoint; on the maps of the transposed model too in
     # the thorough tier (the transposed model is LinearModel machinery, covered with every representation above)
     tp_reps = "full" if thorough else "fwd-adj"
@@ -154,6 +214,54 @@ def cells(tier, seed):
     for dim in ([4, 7] if not thorough else [4, 7, 10]):
         for field in ["none", "KL", "Step", "KL+scale-map"]:
             yield {"fam": "abel", "dim": dim, "field": field, "cat": k, "reps": tp_reps}
+    # option-spelling facet of the shipped problems: every named PSF x every BC with both names written Capitalised /
+    # UPPER-CASE (quick: the two options in the same style; thorough: the styles of the two options independently)
+    for fam, dim, bcs in (("deconv1d", 8, tp.BC_1D), ("deconv2d", 5, tp.BC_2D)):
+        for size in ([3] if not thorough else [3, 4]):
+            for psf in [p for p in tp.PSF_NAMES if p != "custom"]:
+                for bc in bcs:
+                    for ps in STYLES:
+                        for bs in (STYLES if thorough else [ps]):
+                            if ps == "lower" and bs == "lower":
+                                continue
+                            yield {"fam": fam, "dim": dim, "PSF": psf, "size": size, "BC": bc, "cat": k,
+                                   "reps": tp_reps, "PSF_as": _styled(psf, ps), "BC_as": _styled(bc, bs)}
+    for canon, spelled in LEGACY_SPELLINGS:
+        yield {"fam": "deconv1d-legacy", "dim": 8, "PSF": canon, "cat": k, "reps": tp_reps, "PSF_as": spelled}
+    # integer-type facet of the shipped problems: dim, PSF_size, n_steps, num_modes as numpy.int64
+    for fam, dim, bcs in (("deconv1d", 8, tp.BC_1D), ("deconv2d", 5, tp.BC_2D)):
+        for psf in (["gauss", "custom"] if not thorough else tp.PSF_NAMES):
+            for size in ([3] if not thorough else [3, 4]):
+                for bc in bcs:
+                    yield {"fam": fam, "dim": dim, "PSF": psf, "size": size, "BC": bc, "cat": k, "reps": tp_reps,
+                           "ints": "np64"}
+    for psf in ["gauss", "sinc", "vonmises", "custom"]:
+        yield {"fam": "deconv1d-legacy", "dim": 8, "PSF": psf, "cat": k, "reps": tp_reps, "ints": "np64"}
+    for field in ["none", "KL", "Step", "KL+scale-map"]:
+        yield {"fam": "abel", "dim": 7, "field": field, "cat": k, "reps": tp_reps, "ints": "np64"}
+
+
+def canonical(cell):
+    """The cell whose options are all written in their canonical representation (documented upper-case order,
+    lower-case option strings, counts instead of name lists, Python ints), or None when ``cell`` is canonical."""
+    c = dict(cell)
+    c.pop("ints", None)
+    c.pop("PSF_as", None)
+    c.pop("BC_as", None)
+    if "dk" in c:
+        c["dk"], c["rk"] = _base(c["dk"]), _base(c["rk"])
+    return None if c == cell else c
+
+
+def _variant_facet(cell):
+    """Names which representation facet(s) distinguish the cell from its canonical twin."""
+    f = []
+    if (("dk" in cell and (_base(cell["dk"]) != cell["dk"] or _base(cell["rk"]) != cell["rk"]))
+            or "PSF_as" in cell or "BC_as" in cell):
+        f.append("option-representation")
+    if cell.get("ints", "py") != "py":
+        f.append("int-type")
+    return "+".join(f)
 
 
 # ----------------------------------------------------------------------------------------
@@ -171,37 +279,38 @@ def _half(f):
     return 0.5 * f
 
 
-def make_geom(kind, d):
-    """Geometry of the given kind whose function space has ``d`` values (1-D kinds) / shape d (2-D kinds)."""
+def make_geom(kind, d, ints="py"):
+    """Geometry of the given kind whose function space has ``d`` values (1-D kinds) / shape d (2-D kinds).
+    ``ints``: type in which integer constructor arguments are handed over ("py": int, "np64": numpy.int64)."""
     import cuqi.geometry as g
+    I = np.int64 if ints == "np64" else int
     if kind == "default":
-        return int(d)
+        return int(d)           # documented: 'int'
     if kind == "Continuous1D":
-        return g.Continuous1D(d)
+        return g.Continuous1D(I(d))
     if kind == "Discrete":
-        return g.Discrete(d)
+        return g.Discrete(I(d))
+    if kind == "Discrete/names":
+        return g.Discrete(["v%d" % i for i in range(d)])
     if kind == "Image2D-visual":
-        return g.Image2D((1, d), visual_only=True)
+        return g.Image2D((I(1), I(d)), visual_only=True)
     if kind == "Mapped-flip":
-        return g.MappedGeometry(g.Continuous1D(d), _flip, _flip)
+        return g.MappedGeometry(g.Continuous1D(I(d)), _flip, _flip)
     if kind == "Mapped-scale":
-        return g.MappedGeometry(g.Continuous1D(d), _twice, _half)
+        return g.MappedGeometry(g.Continuous1D(I(d)), _twice, _half)
     if kind == "KL":
         return g.KLExpansion(np.linspace(0, 1, d), decay_rate=1.5, normalizer=2.0)
     if kind == "KL-trunc":
-        return g.KLExpansion(np.linspace(0, 1, d), decay_rate=1.5, normalizer=2.0, num_modes=d - 1)
-    if kind == "Step":
-        return g.StepExpansion(np.linspace(0, 1, d), n_steps=2)
-    if kind == "Step-full":
-        return g.StepExpansion(np.linspace(0, 1, d), n_steps=d)
+        return g.KLExpansion(np.linspace(0, 1, d), decay_rate=1.5, normalizer=2.0, num_modes=I(d - 1))
+    if kind.split("/")[0] in ("Step", "Step-full"):
+        kw = {"fun2par_projection": kind.split("/")[1]} if "/" in kind else {}
+        return g.StepExpansion(np.linspace(0, 1, d), n_steps=I(2 if kind.split("/")[0] == "Step" else d), **kw)
     if kind == "default2D":
-        return tuple(int(s) for s in d)
-    if kind == "Image2D-C":
-        return g.Image2D(tuple(d), order="C")
-    if kind == "Image2D-F":
-        return g.Image2D(tuple(d), order="F")
+        return tuple(I(s) for s in d)
+    if kind in ("Image2D-C", "Image2D-F", "Image2D-c", "Image2D-f"):
+        return g.Image2D(tuple(I(s) for s in d), order=kind[-1])
     if kind == "Continuous2D":
-        return g.Continuous2D(tuple(d))
+        return g.Continuous2D(tuple(I(s) for s in d))
     raise ValueError(kind)
 
 
@@ -221,10 +330,12 @@ def build(cell):
     import cuqi
     from cuqi.model import LinearModel
     fam, k = cell["fam"], cell["cat"]
+    ints = cell.get("ints", "py")
+    I = np.int64 if ints == "np64" else int
     if fam == "gen1":
         m, n, b = cell["m"], cell["n"], cell["backing"]
         M = refs.full_matrix(m, n, k)
-        dg, rg = make_geom(cell["dk"], n), make_geom(cell["rk"], m)
+        dg, rg = make_geom(cell["dk"], n, ints), make_geom(cell["rk"], m, ints)
         if b == "func":
             model = LinearModel(lambda x: M @ x, lambda y: M.T @ y, range_geometry=rg, domain_geometry=dg)
         else:
@@ -256,24 +367,25 @@ def build(cell):
         return model, "LinearModel", "backing=function-view,geometry=identity"
     if fam == "gen2":
         fwd, adj = _gen2_pair(cell)
-        dg = make_geom(cell["dk"], (cell["r"], cell["c"]) if cell["c"] else cell["r"])
-        rg = make_geom(cell["rk"], (cell["r2"], cell["c2"]) if cell["c2"] else cell["r2"])
+        dg = make_geom(cell["dk"], (cell["r"], cell["c"]) if cell["c"] else cell["r"], ints)
+        rg = make_geom(cell["rk"], (cell["r2"], cell["c2"]) if cell["c2"] else cell["r2"], ints)
         model = LinearModel(fwd, adj, range_geometry=rg, domain_geometry=dg)
         return model, "LinearModel", "backing=function,geometry=image"
     if fam == "deconv1d":
-        P = tp.custom_psf_1d(cell["size"], k) if cell["PSF"] == "custom" else cell["PSF"]
-        prob = cuqi.testproblem.Deconvolution1D(dim=cell["dim"], PSF=P, PSF_param=[1.25, 2.0, 1.5][k],
-                                                PSF_size=cell["size"], BC=cell["BC"])
+        P = tp.custom_psf_1d(cell["size"], k) if cell["PSF"] == "custom" else cell.get("PSF_as", cell["PSF"])
+        prob = cuqi.testproblem.Deconvolution1D(dim=I(cell["dim"]), PSF=P, PSF_param=[1.25, 2.0, 1.5][k],
+                                                PSF_size=I(cell["size"]), BC=cell.get("BC_as", cell["BC"]))
         return prob.model, "Deconvolution1D", "BC=%s,PSF=%s" % (cell["BC"], cell["PSF"])
     if fam == "deconv1d-legacy":
-        P = tp.custom_psf_1d(cell["dim"], k) if cell["PSF"] == "custom" else cell["PSF"]
-        prob = cuqi.testproblem.Deconvolution1D(dim=cell["dim"], PSF=P, use_legacy=True)
+        P = tp.custom_psf_1d(cell["dim"], k) if cell["PSF"] == "custom" else cell.get("PSF_as", cell["PSF"])
+        prob = cuqi.testproblem.Deconvolution1D(dim=I(cell["dim"]), PSF=P, use_legacy=True)
         return prob.model, "Deconvolution1D", "legacy,PSF=%s" % cell["PSF"]
     if fam == "deconv2d":
         dim = cell["dim"]
-        P = tp.custom_psf_2d(cell["size"], k) if cell["PSF"] == "custom" else cell["PSF"]
-        prob = cuqi.testproblem.Deconvolution2D(dim=dim, PSF=P, PSF_param=[1.25, 2.0, 1.5][k], PSF_size=cell["size"],
-                                                BC=cell["BC"], phantom=refs.dyadic_vec(dim * dim, k).reshape(dim, dim))
+        P = tp.custom_psf_2d(cell["size"], k) if cell["PSF"] == "custom" else cell.get("PSF_as", cell["PSF"])
+        prob = cuqi.testproblem.Deconvolution2D(dim=I(dim), PSF=P, PSF_param=[1.25, 2.0, 1.5][k],
+                                                PSF_size=I(cell["size"]), BC=cell.get("BC_as", cell["BC"]),
+                                                phantom=refs.dyadic_vec(dim * dim, k).reshape(dim, dim))
         if cell["size"] % 2 == 0:
             facet = "PSF_size=even"
         else:
@@ -283,12 +395,12 @@ def build(cell):
         f = cell["field"]
         kw = {}
         if f == "KL":
-            kw = {"field_type": "KL", "field_params": {"num_modes": cell["dim"] - 1}}
+            kw = {"field_type": "KL", "field_params": {"num_modes": I(cell["dim"] - 1)}}
         elif f == "Step":
-            kw = {"field_type": "Step", "field_params": {"n_steps": 2}}
+            kw = {"field_type": "Step", "field_params": {"n_steps": I(2)}}
         elif f == "KL+scale-map":
             kw = {"field_type": "KL", "KL_map": _twice, "KL_imap": _half}
-        prob = cuqi.testproblem.Abel1D(dim=cell["dim"], **kw)
+        prob = cuqi.testproblem.Abel1D(dim=I(cell["dim"]), **kw)
         return prob.model, "Abel1D", "field_type=%s" % f
     raise ValueError(fam)
 
@@ -336,30 +448,56 @@ def _flipmat(d):
     return np.eye(d)[::-1]
 
 
+def _step_membership(d, n_steps):
+    """S[j, i] = 1 when node j of the uniform grid of d nodes on [x0, x0 + L] lies in step i, as documented:
+    step i covers (x0 + i L/n, x0 + (i+1) L/n], the first step includes x0.  Node j sits at x0 + j L/(d-1); the
+    comparison is done in exact integer arithmetic (j n > i (d-1) and j n <= (i+1)(d-1))."""
+    S = np.zeros((d, n_steps))
+    for j in range(d):
+        for i in range(n_steps):
+            lower = (j * n_steps > i * (d - 1)) or (i == 0 and j == 0)
+            if lower and j * n_steps <= (i + 1) * (d - 1):
+                S[j, i] = 1.0
+    assert np.all(S.sum(axis=1) == 1.0), "harness: every node belongs to exactly one step"
+    return S
+
+
+def _step_projection(kind):
+    """Documented meaning of the (case-insensitive) projection string of a Step kind: mean / max / min."""
+    return kind.split("/")[1].lower() if "/" in kind else "mean"
+
+
 def _par2fun_1d(kind, d):
     """Independent par2fun matrix of the 1-D kinds whose maps are written out here (None: no reference)."""
-    if kind in _IDENTITY:
+    base = _base(kind)
+    if base in _IDENTITY:
         return np.eye(d)
-    if kind == "Mapped-flip":
+    if base == "Mapped-flip":
         return _flipmat(d)
-    if kind == "Mapped-scale":
+    if base == "Mapped-scale":
         return 2.0 * np.eye(d)
+    if base == "Step":                      # the step function with the parameters as step heights
+        return _step_membership(d, 2)
     return None
 
 
 def _fun2par_1d(kind, d):
-    if kind in _IDENTITY:
+    base = _base(kind)
+    if base in _IDENTITY:                   # incl. Step-full: one node per step - its mean = max = min = its value
         return np.eye(d)
-    if kind == "Mapped-flip":
+    if base == "Mapped-flip":
         return _flipmat(d)
-    if kind == "Mapped-scale":
+    if base == "Mapped-scale":
         return 0.5 * np.eye(d)
+    if base == "Step" and _step_projection(kind) == "mean":    # average of the node values of each step
+        S = _step_membership(d, 2)
+        return (S / S.sum(axis=0)).T
     return None
 
 
 def reference(cell):
     """Independent dense reference (plain numpy, documented conventions only) of the parameter-to-parameter forward
-    matrix of a generic cell, or None where the geometry's maps are not re-implemented here (KL / step expansions)."""
+    matrix of a generic cell, or None where the geometry's maps are not re-implemented here (KL expansions)."""
     fam, k = cell["fam"], cell["cat"]
     if fam == "gen1":
         m, n = cell["m"], cell["n"]
@@ -402,6 +540,23 @@ def _image_side_matches(geom, shape, order):
         return False
 
 
+def _side_matches_1d(geom, P, Q):
+    """True when the real 1-D geometry's par2fun has the matrix P / its fun2par the matrix Q (the one given) on the
+    complete bases (used for *naming* the failing side only)."""
+    try:
+        if P is not None:
+            got = np.array([np.asarray(geom.par2fun(e.copy()), dtype=float).ravel() for e in np.eye(P.shape[1])]).T
+            if got.shape != P.shape or not close(got, P, 1e-9):
+                return False
+        if Q is not None:
+            got = np.array([np.asarray(geom.fun2par(e.copy()), dtype=float).ravel() for e in np.eye(Q.shape[1])]).T
+            if got.shape != Q.shape or not close(got, Q, 1e-9):
+                return False
+        return True
+    except Exception:
+        return False
+
+
 def _bk(b):
     return "function" if b == "func" else "matrix"
 
@@ -411,7 +566,7 @@ _IDENTITY = ("default", "Continuous1D", "Discrete", "Image2D-visual", "Step-full
 
 def _gcat(cell):
     """Coarse geometry category for failures that are *not* attributable to a geometry side."""
-    return "identity" if (cell["dk"] in _IDENTITY and cell["rk"] in _IDENTITY) else "non-identity"
+    return "identity" if (_base(cell["dk"]) in _IDENTITY and _base(cell["rk"]) in _IDENTITY) else "non-identity"
 
 
 def _dense(M):
@@ -547,6 +702,7 @@ def check_model(res, model, comp, facet, cell):
         gcat = {"deconv1d": "identity", "deconv1d-legacy": "identity", "deconv2d": "image"}.get(
             cell["fam"], "identity" if cell.get("field") == "none" else "non-identity")
         gfacet = "backing=%s,geometry=%s" % (bk, gcat)
+    comp0 = comp        # the component whose constructor reads the options (the test problem / LinearModel)
     if matrix_backed:
         comp, facet = "LinearModel", gfacet
     # generic models are built here from callables defined on the geometries' documented function shapes (and every
@@ -584,6 +740,11 @@ def check_model(res, model, comp, facet, cell):
                     blamed.append("domain=%s" % cell["dk"])
                 if cell["c2"] and not _image_side_matches(rgeom, (cell["r2"], cell["c2"]), _ORDER2[cell["rk"]]):
                     blamed.append("range=%s" % cell["rk"])
+            if cell["fam"] == "gen1":
+                if not _side_matches_1d(dgeom, _par2fun_1d(cell["dk"], n), None):
+                    blamed.append("domain=%s" % cell["dk"])
+                if not _side_matches_1d(rgeom, None, _fun2par_1d(cell["rk"], m)):
+                    blamed.append("range=%s" % cell["rk"])
             for b in (blamed or [gfacet]):
                 res.fail("C07|LinearModel|forward-reference|%s" % b,
                          "forward on the complete basis differs from the dense reference fun2par_range . A . par2fun_domain "
@@ -592,10 +753,10 @@ def check_model(res, model, comp, facet, cell):
 
     dom_ok = _geometry_transposes(model.domain_geometry)
     ran_ok = _geometry_transposes(model.range_geometry)
-    identity_geoms = cell.get("dk") in _IDENTITY and cell.get("rk") in _IDENTITY
+    identity_geoms = _base(cell.get("dk", "?")) in _IDENTITY and _base(cell.get("rk", "?")) in _IDENTITY
     if cell["fam"] in ("deconv1d", "deconv1d-legacy") or (cell["fam"] == "abel" and cell["field"] == "none"):
         identity_geoms = True
-    reapply_ok = (cell.get("dk", "default") in _REAPPLY_OK and cell.get("rk", "default") in _REAPPLY_OK)
+    reapply_ok = (_base(cell.get("dk", "default")) in _REAPPLY_OK and _base(cell.get("rk", "default")) in _REAPPLY_OK)
     if cell["fam"] == "abel":
         reapply_ok = cell["field"] == "none"
 
@@ -620,6 +781,35 @@ def check_model(res, model, comp, facet, cell):
             res.fail("C07|%s|adjoint|%s" % (comp, facet), msg, F=F, G=G)
     res.outcomes.add("adjoint:%s" % ("ok" if adj_ok else "differs"))
     res.outcomes.add("F#" + hashlib.sha1(np.round(F, 9).tobytes()).hexdigest()[:10])   # distinct operators seen
+
+    # ---- (1b) option-representation / integer-type facets: same options, same model ------------------
+    # a cell whose options are written in another accepted representation (spelling of an option string, list of
+    # names for a count, numpy.int64 for int) presents the SAME model as its canonical twin: identical F and G
+    canon = canonical(cell)
+    if canon is not None:
+        vf = _variant_facet(cell)
+        try:
+            twin = build(canon)[0]
+            Fc = _columns(twin.forward, n, res)
+            Gc = _columns(twin.adjoint, m, res)
+        except Exception as e:        # the canonical cell is judged in its own right elsewhere
+            Fc = Gc = None
+            res.outcomes.add("twin-unavailable:" + type(e).__name__)
+        if Fc is not None:
+            res.evaluations += 2
+            res.traces += n + m
+            f_same = Fc.shape == F.shape and close(F, Fc, 1e-9)
+            g_same = Gc.shape == G.shape and close(G, Gc, 1e-9)
+            res.outcomes.add("twin:%s/%s" % ("same" if f_same else "differs", "same" if g_same else "differs"))
+            what = _variant_text(cell)
+            if not f_same:
+                res.fail("C07|%s|forward|%s" % (comp0, vf), "forward on the complete basis differs from forward of the same "
+                         "model with its options in canonical form (%s): max diff %r" %
+                         (what, float(np.max(np.abs(F - Fc))) if Fc.shape == F.shape else Fc.shape), F=F, F_canonical=Fc)
+            if not g_same:
+                res.fail("C07|%s|adjoint|%s" % (comp0, vf), "adjoint on the complete basis differs from adjoint of the same "
+                         "model with its options in canonical form (%s): max diff %r" %
+                         (what, float(np.max(np.abs(G - Gc))) if Gc.shape == G.shape else Gc.shape), G=G, G_canonical=Gc)
 
     # ---- linearity probes (one per map) --------------------------------------------------------
     v = refs.dyadic_vec(n, k)
@@ -764,16 +954,51 @@ def check_model(res, model, comp, facet, cell):
         res.sample = {"F": F[:, : min(3, n)], "G^T": G.T[:, : min(3, n)], "adjoint_is_transpose": adj_ok}
 
 
+def _variant_text(cell):
+    """Written-out difference between the cell and its canonical twin (for messages)."""
+    t = []
+    for side in ("dk", "rk"):
+        if side in cell and _base(cell[side]) != cell[side]:
+            t.append("%s geometry %s for %s" % ("domain" if side == "dk" else "range", cell[side], _base(cell[side])))
+    for key in ("PSF", "BC"):
+        if key + "_as" in cell:
+            t.append("%s=%r for %r" % (key, cell[key + "_as"], cell[key]))
+    if cell.get("ints", "py") != "py":
+        t.append("integer arguments as numpy.int64")
+    return "; ".join(t)
+
+
 def eval_cell(cell):
     res = CellResult(cell)
     try:
         model, comp, facet = build(cell)
-    except Exception as e:   # construction refused
-        res.refused += 1
-        res.nontrivial = False
+    except Exception as e:
         res.transitions += 1
-        res.state("construct-refused")
-        res.outcomes.add("construct-refused:%s" % type(e).__name__)
+        res.nontrivial = False
+        res.state("construct-raised")
+        res.outcomes.add("construct-raised:%s" % type(e).__name__)
+        comp = {"deconv1d": "Deconvolution1D", "deconv1d-legacy": "Deconvolution1D", "deconv2d": "Deconvolution2D",
+                "abel": "Abel1D"}.get(cell["fam"], "LinearModel")
+        canon = canonical(cell)
+        if cell["fam"] in ("gen1", "gen2", "genview") and canon is None:
+            # geometries and callables of the generic cells are within the documented use: nothing to refuse
+            res.fail("C07|LinearModel|construct-raises|backing=%s,geometry=%s" %
+                     (_bk(cell["backing"]), "image" if cell["fam"] == "gen2" else _gcat(cell)),
+                     "constructing the geometries / the model raised: %r" % (e,))
+            return res
+        if canon is not None:
+            # an option written in another accepted representation: refusing it is only consistent when the
+            # canonical form of the same options is refused as well
+            try:
+                build(canon)
+            except Exception:
+                res.refused += 1
+                return res
+            res.fail("C07|%s|construct-raises|%s" % (comp, _variant_facet(cell)),
+                     "construction raised %r although the same options in canonical form are accepted (%s)" %
+                     (e, _variant_text(cell)))
+            return res
+        res.refused += 1      # construction of a shipped test problem refused
         return res
     res.count(cell["fam"])
     check_model(res, model, comp, facet, cell)
